@@ -107,6 +107,16 @@ CLAIMED = {
                 "derive-generated code for Request/Reply/ServiceInfo and serde_json itself are trusted, so the full round trip of those types is NOT claimed.",
         "ref": "5-C17",
     },
+    "C12": {
+        "text": "Proof, for the DIAGNOSTIC SLICE of the property only and under an ASSUMED contract of the peg runtime's error location (1 <= line <= number of lines of the input, "
+                "1 <= column <= length of that line + 1): the code of IDL::try_from that turns a parser error into Error::Parse cannot panic (index arithmetic, nth(..).unwrap()), reports "
+                "as `line` the text of exactly the input line the location names (lines split at '\\n') and as `column` the location's column, which lies within that line or just past its "
+                "end. NOT claimed: that parsing returns for every input, terminates and is stack-safe (the peg::parser! expansion is outside the verifier's reach), the location contract "
+                "itself (it is exercised, not proved, by the thorough tier's witness search over ~1900 corrupted definitions), and Display of the error (thiserror derive).",
+        "note": NOTE_COMMON + "the closure passed to map_err in try_from is lifted into a named function of (input text, error) (T9); `value.split('\\n').nth(k)` is a stand-in with the assumed "
+                "std semantics; seeded changes to the grammar, to recursion depth or to Display will not be detected by this check.",
+        "ref": "5-C12",
+    },
     "C14": {
         "text": "Proof: ThreadPool::new establishes and execute preserves workers.len() <= max_workers (one connection per worker: the bound) and the provisioning "
                 "invariant `workers == max or counter <= workers` where the counter is raised by execute before the job is sent; the worker loop is verified to run the job "
@@ -166,7 +176,6 @@ CLAIMED = {
 NOT_APPLICABLE = {
     "C09": "'the emitted Rust compiles' is rustc's type checker applied to an unbounded family of outputs; panic sites are inside syn::parse_str (DESIGN.md section 7)",
     "C10": "relates the format!/String layout printer to the peg-generated parser; Verus has no str/format! reasoning and Kani exhausts memory on format! (DESIGN.md section 7)",
-    "C12": "totality of the macro-generated recursive-descent parser over arbitrary Unicode and nesting; no function-level contract within the verifier's reach (DESIGN.md section 7)",
     "C13": "quantifies over thread schedules and timing of 2..64 OS connections; the installed Verus has no thread model and Kani has no threads (DESIGN.md section 7)",
 }
 
